@@ -38,6 +38,7 @@ class Client:
         self.tls = tls
         self.buf = b""
         self.eof = None  # None | 'eof' | 'rst'
+        self.send_failed = False
         self.raw_log = []  # every byte chunk received (for framing checks)
         self.keep_raw = False
         self.transcript = []  # (direction, text)
@@ -62,8 +63,8 @@ class Client:
         try:
             self.sock.sendall(data)
         except (BrokenPipeError, ConnectionResetError, ssl.SSLError, OSError):
-            if self.eof is None:
-                self.eof = "rst"
+            # the reader finds out (data queued before the peer's close must still be read)
+            self.send_failed = True
 
     # ---- receiving
     def _fill(self, timeout):
